@@ -4,6 +4,7 @@ package main
 
 import (
 	"strconv"
+	"strings"
 	"crypto/sha1"
 	"fmt"
 	"go/token"
@@ -112,8 +113,7 @@ func (e *Engine) sha1UUID(inp []*Term) Slice {
 			outEq = e.ts.BAnd(e.ts.Cmp(opEq, app.out[i], old.out[i]), outEq)
 		}
 		if len(old.in) != len(app.in) {
-			e.assume(e.ts.BNot(outEq))
-			added = true
+			e.pendingAxioms = append(e.pendingAxioms, e.ts.BNot(outEq))
 			continue
 		}
 		inEq := e.ts.tru
@@ -124,13 +124,24 @@ func (e *Engine) sha1UUID(inp []*Term) Slice {
 			continue
 		}
 		// outEq ⇒ inEq
-		e.assume(e.ts.BOr(e.ts.BNot(outEq), inEq))
-		added = true
+		e.pendingAxioms = append(e.pendingAxioms, e.ts.BOr(e.ts.BNot(outEq), inEq))
 	}
 	if added {
 		e.invalidateModel()
 	}
 	e.sha1Apps = append(e.sha1Apps, app)
+	idx := len(e.sha1Apps) - 1
+	if app.sym {
+		for i, o := range app.out {
+			e.sha1OutTerm[o.id] = sha1Ref{idx, i}
+		}
+	} else {
+		var sb strings.Builder
+		for _, o := range app.out {
+			sb.WriteByte(byte(o.c))
+		}
+		e.sha1OutConc[sb.String()] = idx
+	}
 	out := make(Slice, 16)
 	for i := range out {
 		out[i] = app.out[i]
@@ -310,4 +321,86 @@ func init() {
 			return Tuple{FloatSym{e.newVar(fmt.Sprintf("~float%d", e.witnessCount), 64)}, Iface{}}
 		}
 	})
+}
+
+type sha1Ref struct{ app, i int }
+
+// sha1AppOf identifies a 16-byte window as the complete output of one hash
+// application on this path (symbolic: by term identity; concrete: by value).
+func (e *Engine) sha1AppOf(s Str, off int) (int, bool) {
+	if s.t == nil {
+		idx, ok := e.sha1OutConc[s.s[off:off+16]]
+		return idx, ok
+	}
+	allConst := true
+	for i := 0; i < 16; i++ {
+		if !s.t[off+i].IsConst() {
+			allConst = false
+			break
+		}
+	}
+	if allConst {
+		var sb strings.Builder
+		for i := 0; i < 16; i++ {
+			sb.WriteByte(byte(s.t[off+i].c))
+		}
+		idx, ok := e.sha1OutConc[sb.String()]
+		return idx, ok
+	}
+	r, ok := e.sha1OutTerm[s.t[off].id]
+	if !ok || r.i != 0 {
+		return 0, false
+	}
+	for i := 1; i < 16; i++ {
+		r2, ok := e.sha1OutTerm[s.t[off+i].id]
+		if !ok || r2.app != r.app || r2.i != i {
+			return 0, false
+		}
+	}
+	return r.app, true
+}
+
+// sha1Eq rewrites an equality between strings made of whole hash outputs into
+// the equality of the hashed inputs (injectivity of the hash is the standing
+// assumption; this only spares the solver the detour through the axioms).
+func (e *Engine) sha1Eq(a, b Str) (*Term, bool) {
+	n := a.Len()
+	if n == 0 || n%16 != 0 || n != b.Len() || len(e.sha1Apps) == 0 {
+		return nil, false
+	}
+	if a.t == nil && b.t == nil {
+		return nil, false
+	}
+	res := e.ts.tru
+	any := false
+	for off := 0; off < n; off += 16 {
+		ia, ok1 := e.sha1AppOf(a, off)
+		ib, ok2 := e.sha1AppOf(b, off)
+		if !ok1 || !ok2 {
+			// not (both) hash outputs: compare this window byte by byte
+			for i := off + 15; i >= off; i-- {
+				res = e.ts.BAnd(e.ts.Cmp(opEq, e.byteAt(a, i), e.byteAt(b, i)), res)
+			}
+			if res.IsFalse() {
+				return res, true
+			}
+			continue
+		}
+		any = true
+		if ia == ib {
+			continue
+		}
+		x, y := e.sha1Apps[ia], e.sha1Apps[ib]
+		if len(x.in) != len(y.in) {
+			return e.ts.fls, true
+		}
+		res = e.ts.BAnd(res, e.strEq(Str{t: nonNil(x.in)}, Str{t: nonNil(y.in)}))
+		if res.IsFalse() {
+			return res, true
+		}
+	}
+	if !any {
+		return nil, false
+	}
+	return res, true
 }
